@@ -5,9 +5,11 @@ import c04_common as cc
 
 LEVEL = "exploration"
 NAME = "c04_connectsync"
+BUILDS = [(NAME, "plain"), (NAME, "tsan"), (NAME, "asan")]
 
 SCN = ["accept", "refuse", "blackhole", "rst-after-accept", "tls-ok", "tls-wrong-ca", "tls-garbage", "tls-slow",
-       "tls-stall", "tls-rst-after-hello", "resolve-fail", "resolve-slow-fail", "resolve-slow-ok"]
+       "tls-stall", "tls-rst-after-hello", "resolve-fail", "resolve-slow-fail", "resolve-slow-ok",
+       "tls-requested-not-configured"]
 
 
 def _ingest_first_pass(ctx, rr, where):
@@ -30,7 +32,7 @@ def run(ctx):
     flavors = ["plain", "tsan"] + (["asan"] if thorough else [])
     bins = vf.build_many([(NAME, f) for f in flavors])
     # one batch = one fresh transport + one target + 1..32 callers, ~28 calls on average
-    plan = {"plain": 2000, "asan": 900, "tsan": 700} if thorough else {"plain": 104, "tsan": 40}
+    plan = {"plain": 2300, "asan": 1000, "tsan": 800} if thorough else {"plain": 256, "tsan": 96}
     nworkers = {"plain": 8, "asan": 4, "tsan": 4} if thorough else {"plain": 10, "tsan": 6}
     jobs = []
     for fl in flavors:
